@@ -321,6 +321,24 @@ def sign_completion(ctx, repo):
                     isinstance(st.value, _a.Name) and st.value.id == loop.target.id:
                 repl = (loop, st)
     if repl is None:
+        # the completion may live in a helper:  D = self._complete(D)  whose body returns the loop variable of a loop over literal triples
+        for st_ in _a.walk(fi.node):
+            if not (isinstance(st_, _a.Assign) and len(st_.targets) == 1 and isinstance(st_.value, _a.Call) and
+                    isinstance(st_.value.func, _a.Attribute) and isinstance(st_.value.func.value, _a.Name) and st_.value.func.value.id in ("self", at.name)):
+                continue
+            hm = at.find_method(st_.value.func.attr)
+            if hm is None:
+                continue
+            hcn = Canon(Canon.single_defs(hm.node.body))
+            for hl in _a.walk(hm.node):
+                if not (isinstance(hl, _a.For) and isinstance(hl.target, _a.Name)):
+                    continue
+                hit = hcn.expand(hl.iter)
+                if isinstance(hit, (_a.List, _a.Tuple)) and hit.elts and all(isinstance(x, (_a.List, _a.Tuple)) for x in hit.elts) and \
+                        any(isinstance(r_, _a.Return) and isinstance(r_.value, _a.Name) and r_.value.id == hl.target.id for r_ in _a.walk(hl)):
+                    ctx.analysed(hm)
+                    repl = (st_, st_)
+    if repl is None:
         ctx.inconclusive("SELECT", "C11.signfix", "right-handed completion of the sign triple not recognised", fi.where)
         return
     loop, st = repl
